@@ -372,7 +372,51 @@ def translate_counters():
     return "\n".join(out), sig
 
 
+def translate_write_all():
+    """Packetizer.write_all: the loop shape the model mirrors — `while len(out) > 0`, the retry branch assigns the
+    constant `n = <retry_n>` on EVERY retried iteration before anything else, the zero-return limit, the
+    `if n == len(out): break` test and the final `out = out[n:]`.  -> Lean definitions of the two constants"""
+    from paramiko.packet import Packetizer
+
+    fn = _fn_ast(Packetizer.write_all)
+    loops = [st for st in fn.body if isinstance(st, ast.While)]
+    if len(loops) != 1 or ast.unparse(loops[0].test) != "len(out) > 0":
+        raise Untranslatable("write_all: send loop changed")
+    body = loops[0].body
+    retry = [st for st in body if isinstance(st, ast.If) and ast.unparse(st.test) == "retry_write"]
+    if len(retry) != 1:
+        raise Untranslatable("write_all: no `if retry_write:` branch in the send loop")
+    r = retry[0]
+    first = r.body[0] if r.body else None
+    if not (isinstance(first, ast.Assign) and ast.unparse(first.targets[0]) == "n" and isinstance(first.value, ast.Constant)
+            and isinstance(first.value.value, int)):
+        raise Untranslatable("write_all: the retry branch does not start by assigning a constant to n: %s"
+                             % (ast.unparse(first)[:60] if first else "empty"))
+    retry_n = first.value.value
+    lim = None
+    for st in r.orelse:
+        if isinstance(st, ast.If) and isinstance(st.test, ast.BoolOp) and isinstance(st.test.op, ast.And):
+            parts = [ast.unparse(v) for v in st.test.values]
+            if parts[0] == "n == 0" and parts[1].startswith("iteration_with_zero_as_return_value > "):
+                c = st.test.values[1].comparators[0]
+                if isinstance(c, ast.Constant) and isinstance(c.value, int):
+                    lim = c.value
+    if lim is None:
+        raise Untranslatable("write_all: zero-return limit not found in the non-retry branch")
+    tail = [ast.unparse(st) for st in body[-3:]]
+    if len(tail) != 3 or not tail[0].startswith("if n < 0:") or "raise EOFError()" not in tail[0] \
+            or tail[1].replace("\n", " ").split() != "if n == len(out): break".split() or tail[2] != "out = out[n:]":
+        raise Untranslatable("write_all: loop tail changed: %r" % (tail,))
+    if retry[0] is not body[-4]:
+        raise Untranslatable("write_all: statements between the retry branch and the loop tail")
+    src = ("def write_all_retry_n : Int :=\n  (%d : Int)\n\ndef write_all_zero_limit : Int :=\n  (%d : Int)\n"
+           % (retry_n, lim))
+    return src, {"write_all_retry_n": ([], []), "write_all_zero_limit": ([], [])}
+
+
 EXPECTED_SIG = {
+    "write_all_retry_n": ([], []),
+    "write_all_zero_limit": ([], []),
     "padding": (["block_size_out", "len_payload"], ["etm_out", "aead_out"]),
     "zero_pad": ([], ["sdctr_out", "block_engine_out_none"]),
     "send_next_seq": (["sequence_number_out"], []),
@@ -393,8 +437,10 @@ def gen_lean(ctx=None):
     rows = suite_rows()
     k1, s1 = translate_build_packet()
     k2, s2 = translate_counters()
+    k3, s3 = translate_write_all()
     sig = dict(s1)
     sig.update(s2)
+    sig.update(s3)
     if sig != EXPECTED_SIG:
         raise Untranslatable("kernel inputs changed: %r" % sig)
     lines = [
@@ -427,6 +473,7 @@ def gen_lean(ctx=None):
     lines.append("-- kernels translated from Packetizer._build_packet / send_message / read_message")
     lines.append(k1)
     lines.append(k2)
+    lines.append(k3)
     lines.append("end PV.Generated.C03")
     return "\n".join(lines) + "\n"
 
@@ -545,18 +592,47 @@ class ToyDecomp:
 # sockets
 # ----------------------------------------------------------------------------------------------
 class SinkSock:
-    """collects what write_all sends; `limit` scripts short writes"""
+    """collects what write_all sends.  `script` = outcomes of the next send() calls: int k = accept min(k, len) bytes,
+    "t" = socket.timeout, "e" = socket.error(EAGAIN), "x" = another socket error; when the script is used up:
+    with `rng` random short writes, timeouts and EAGAINs (a short write is often followed by a timeout), else all"""
 
     def __init__(self, rng=None):
         self.buf = bytearray()
         self.rng = rng
+        self.script = []
+        self.scripted = False
+        self._after_short = False
 
     def send(self, data):
+        import errno
+
         n = len(data)
-        if self.rng is not None and n > 1 and self.rng.random() < 0.3:
-            n = self.rng.randrange(1, n)
-        self.buf += data[:n]
-        return n
+        if self.script:
+            ev = self.script.pop(0)
+        elif self.rng is not None and not self.scripted:
+            r = self.rng.random()
+            if self._after_short and r < 0.5:
+                ev = self.rng.choice(["t", "e"])
+            elif r < 0.1:
+                ev = self.rng.choice(["t", "e"])
+            elif r < 0.4 and n > 1:
+                ev = self.rng.randrange(1, n)
+            else:
+                ev = n
+        else:
+            ev = n
+        if ev == "t":
+            self._after_short = False
+            raise socket.timeout()
+        if ev == "e":
+            self._after_short = False
+            raise socket.error(errno.EAGAIN, "try again")
+        if ev == "x":
+            raise socket.error(errno.EPIPE, "broken pipe")
+        k = min(int(ev), n)
+        self._after_short = 0 < k < n
+        self.buf += data[:k]
+        return k
 
     def close(self):
         pass
@@ -565,6 +641,50 @@ class SinkSock:
         b = bytes(self.buf)
         del self.buf[:]
         return b
+
+
+def parse_wsched(tok):
+    return [] if tok == "-" else [x if x in ("t", "e", "x") else int(x) for x in tok.split(",")]
+
+
+def scripted_write(sock, script, fn):
+    """run fn() (which calls write_all) with the socket following `script`; -> "<hex accepted> ok|eof" """
+    sock.script, sock.scripted = list(script), True
+    try:
+        fn()
+        status = "ok"
+    except EOFError:
+        status = "eof"
+    finally:
+        sock.script, sock.scripted = [], False
+    b = sock.take()
+    return "%s %s" % (b.hex() if b else "-", status)
+
+
+def wsched_tok(sc):
+    return ",".join(map(str, sc)) or "-"
+
+
+def gen_wsched(rng, n):
+    """a schedule of send() outcomes for a packet of about n bytes; short write followed by timeout/EAGAIN is frequent"""
+    if rng.random() < 0.3:
+        return []
+    out = []
+    for _ in range(rng.randrange(1, 9)):
+        r = rng.random()
+        if r < 0.35:
+            out.append(rng.randrange(0, max(2, n)))
+            if rng.random() < 0.6:
+                out.append(rng.choice(["t", "e"]))
+        elif r < 0.6:
+            out.append(rng.choice(["t", "e"]))
+        elif r < 0.7:
+            out.append(0)
+        elif r < 0.74:
+            out.append("x")
+        else:
+            out.append(rng.randrange(0, 3 * max(2, n)))
+    return out
 
 
 class FragSock:
